@@ -465,6 +465,7 @@ def m_lt(op):
 # ----------------------------------------------------------------------------- strings / slices / vec
 def m_to_string(e,run,a,f):
     d=deref(a[0])
+    if isinstance(d,Opaque) and d.kind=='DelayedFormat': return mk_string(render_delayed(e,run,d))
     if isinstance(d,(Str,StringO)): return StringO(d.b,d.taint,d.ghost)
     if isinstance(d,Int) and d.conc(): return mk_string(str(d.signed_val()))
     if isinstance(d,Int): return mk_string('<sym-int>',True)
@@ -2060,3 +2061,46 @@ def register_pem(E):
 _old_register_all20=register_all
 def register_all(E):
     _old_register_all20(E); register_pem(E)
+
+def m_str_char_indices(e,run,a,f):
+    it=m_str_chars(e,run,a,f); out=[]; pos=0
+    for c in it.items:
+        out.append(tuple2(Int(64,False,pos),c))
+        pos+=len(chr(c.v).encode()) if isinstance(c,Char) else len(c.b)
+    return Iter(out)
+def m_char_len_utf8(e,run,a,f):
+    c=deref(a[0]); return Int(64,False,len(chr(c.v).encode()) if isinstance(c,Char) else len(c.b))
+def m_string_insert_str(e,run,a,f): raise Unsupported('String::insert_str')
+# chrono strftime-style formatting (concrete instants only)
+def m_dt_format(e,run,a,f):
+    return Opaque('DelayedFormat',(deref(a[0]),need_conc(byte_list(a[1]),'format string').decode()))
+def render_delayed(e,run,d):
+    dt,fmt=d.p
+    off=0 if dt.ty=='DateTime' else dt.f[2]
+    if not dt.f[0].conc() or (not isinstance(off,int) and not off.conc()): raise Unsupported('strftime formatting of a symbolic instant')
+    offv=off if isinstance(off,int) else off.signed_val()
+    import datetime
+    t=datetime.datetime(1970,1,1)+datetime.timedelta(seconds=dt.f[0].signed_val()+offv)
+    out=''; i=0
+    while i<len(fmt):
+        c=fmt[i]
+        if c!='%': out+=c; i+=1; continue
+        sp=fmt[i+1]; i+=2
+        if sp==':' and fmt[i:i+1]=='z':
+            i+=1; s='+' if offv>=0 else '-'; o=abs(offv); out+='%s%02d:%02d'%(s,o//3600,(o%3600)//60); continue
+        if sp=='z':
+            s='+' if offv>=0 else '-'; o=abs(offv); out+='%s%02d%02d'%(s,o//3600,(o%3600)//60); continue
+        if sp in 'YmdHMSjyeb': out+=t.strftime('%'+sp); continue
+        if sp=='F': out+=t.strftime('%Y-%m-%d'); continue
+        if sp=='T': out+=t.strftime('%H:%M:%S'); continue
+        if sp=='s': out+=str(dt.f[0].signed_val()); continue
+        if sp=='%': out+='%'; continue
+        raise Unsupported('strftime specifier %'+sp)
+    return out
+def register_misc12(E):
+    M=E.model
+    M(r'<impl str>::char_indices$',m_str_char_indices); M(r'<impl char>::len_utf8$',m_char_len_utf8)
+    M(r'^DateTime::format$',m_dt_format)
+_old_register_all21=register_all
+def register_all(E):
+    _old_register_all21(E); register_misc12(E)
